@@ -164,7 +164,7 @@ def run_wrapper(case, cfg, built):
         if cfg.get("step") is not None:
             kwargs["budget_step"] = core.to_num(cfg["step"])  # else: the documented default
         if init:
-            kwargs["initial_budget_allocation"] = init
+            kwargs["initial_budget_allocation"] = core.shape_init(init, cfg.get("init_type") or core.pick_init_type(case.seed, len(init)))
         if cfg.get("bound") is not None or cfg.get("bound_mult"):
             kwargs["budget_bound"] = core.to_num(bound_of(case, cfg))
         return R.exhaustion_by_budget_increase(inst, prof, f, **kwargs)
@@ -176,7 +176,7 @@ def run_wrapper(case, cfg, built):
             ps.append(dict(kw, tie_breaking=tie))
         kwargs = dict(rule_params=ps, resoluteness=res)
         if init:
-            kwargs["initial_budget_allocation"] = init
+            kwargs["initial_budget_allocation"] = core.shape_init(init, cfg.get("init_type") or core.pick_init_type(case.seed, len(init)))
         return R.completion_by_rule_combination(inst, prof, fs, **kwargs)
     return R.method_of_equal_shares(inst, prof, sat_class=core.sat_class(cfg["sat"]), tie_breaking=tie, resoluteness=res,
                                     voter_budget_increment=core.to_num(cfg["inc"]))
